@@ -396,6 +396,11 @@ func SetSlice(dest reflect.Value, objects interface{}) error {
 	v := EnsurePackValue(objects)
 	if h, ok := v.Interface().(*_refHolder); ok {
 		h.add(dest)
+		// the referenced list is usually complete already: bind it now
+		// (if it is still being read, notify re-binds every destination at its end)
+		if cv, err := ConvertSliceValueType(destTyp, h.value); err == nil && cv.IsValid() {
+			SetValue(dest, cv)
+		}
 		return nil
 	}
 
